@@ -1,6 +1,7 @@
 import ZeepVerif.Driver.C06
 import ZeepVerif.Driver.Gen
 import ZeepVerif.Driver.HttpDrv
+import ZeepVerif.Driver.YaDrv
 
 def main (args : List String) : IO UInt32 := do
   match args with
@@ -8,5 +9,6 @@ def main (args : List String) : IO UInt32 := do
   | ["model", dump, start, out] => ZeepVerif.Driver.Gen.main dump start out
   | ["modelbatch"] => ZeepVerif.Driver.Gen.batch
   | ["shapes", dump] => ZeepVerif.Driver.Gen.shapes dump
+  | ["ya"] => ZeepVerif.Driver.YaDrv.main; return 0
   | ["http"] => ZeepVerif.Driver.HttpDrv.main; return 0
   | _ => IO.eprintln "usage: zvdrv c06 < lines"; return 2
